@@ -463,17 +463,28 @@ impl<'a> Searcher<'a> {
                         })
                         .collect::<Vec<usize>>();
 
+                    // like for plain rows, the type of the key decides how it is compared: guessing it from
+                    // the printed values is not a total order (and sorts the extensions `9` and `10` as numbers)
+                    let numeric_keys = self
+                        .query
+                        .ordering_fields
+                        .iter()
+                        .map(|f| f.contains_numeric())
+                        .collect::<Vec<bool>>();
+
                     results.sort_by(|a, b| {
                         sorting_indices
                             .iter()
                             .enumerate()
                             .map(|(idx, i)| {
-                                if let Some(a) = a.get(*i) {
-                                    if let Ok(a) = a.1.parse::<f64>() {
-                                        if let Some(b) = b.get(*i) {
-                                            if let Ok(b) = b.1.parse::<f64>() {
-                                                let ord = a.partial_cmp(&b).unwrap_or(std::cmp::Ordering::Equal);
-                                                return if directions[idx] { ord } else { ord.reverse() };
+                                if numeric_keys[idx] {
+                                    if let Some(a) = a.get(*i) {
+                                        if let Ok(a) = a.1.parse::<f64>() {
+                                            if let Some(b) = b.get(*i) {
+                                                if let Ok(b) = b.1.parse::<f64>() {
+                                                    let ord = a.partial_cmp(&b).unwrap_or(std::cmp::Ordering::Equal);
+                                                    return if directions[idx] { ord } else { ord.reverse() };
+                                                }
                                             }
                                         }
                                     }
